@@ -433,6 +433,41 @@ func (h *History) Step(o Op) {
 			return
 		}
 		sendAndWait(refcodec.Encode(refcodec.New(refcodec.Pingreq, byte(c.version))))
+	case "late_hook":
+		// the pending scripted hooks are attached now, each while the broker handles a packet (a PINGREQ of connection k
+		// is answered during the hook's Init)
+		if c == nil {
+			fail("skip: no such connection")
+			return
+		}
+		for _, sh := range h.late {
+			hk := &scriptHook{s: sh, r: h.rec, initArr: make(chan struct{}, 1), initRel: make(chan struct{})}
+			added := make(chan struct{})
+			go func() { _ = h.Srv.AddHook(hk, nil); close(added) }()
+			select {
+			case <-hk.initArr:
+			case <-time.After(3 * time.Second):
+				fail("stuck: hook Init not reached")
+				return
+			}
+			// (a QoS 0 PUBLISH to a topic nobody has subscribed to yet: it runs through every publish-related hook method,
+			// then a PINGREQ, which runs through the packet-related ones)
+			pp := refcodec.New(refcodec.Publish, byte(c.version))
+			pp.Topic, pp.Payload = "late/x", []byte("mL")
+			if c.version == 5 {
+				pp.HasProps = true
+			}
+			sendAndWait(refcodec.Encode(pp))
+			sendAndWait(refcodec.Encode(refcodec.New(refcodec.Pingreq, byte(c.version))))
+			close(hk.initRel)
+			select {
+			case <-added:
+			case <-time.After(3 * time.Second):
+				fail("stuck: AddHook did not return")
+				return
+			}
+		}
+		h.late = nil
 	case "disconnect":
 		if c == nil {
 			fail("skip: no such connection")
